@@ -3,16 +3,18 @@
    [rgood r]: r is neither [Panic _] nor [OutOfFuel]. *)
 From Coq Require Import List NArith Bool.
 From Coq.Strings Require Import Byte.
-From MS Require Import Base.Bytes Base.Outcome Base.Prog Webp.Container Webp.Vp8l Webp.ContainerProofsTotal Webp.Vp8lProofsTop.
+From MS Require Import Base.Bytes Base.Outcome Base.Prog Webp.Container Webp.Vp8l Webp.ContainerProofsTotal Webp.Vp8lProofsTop
+  Webp.Vp8lProofsTotal Webp.WebpTotalProofs.
 Open Scope N_scope.
 
 (* the container programme (ChunkReader protocol assertions: read_data/skip_data/ChunkDataReader in PeekingHeader state,
    the `stream_position - 8` subtraction, parent of the root level, fixed-size slice accesses of the chunk parsers):
    no Panic outcome is reachable, for every input, both configurations, strict and seek-style readers, every seek bound
-   and EVERY fuel, given a lossless validator that itself never panics or runs out of fuel *)
+   and EVERY fuel, given a lossless validator that itself never panics or runs out of fuel on the dimensions a container
+   can pass ([ldims w h]: 0 < w, h <= 2^24) *)
 Theorem C09_webp_container_no_panic :
   forall (lossless : N -> N -> bytes -> res unit) (allow lenient : bool) (ms : N) (inp : input) (fuel : nat),
-  (forall w h b, rgood (lossless w h b)) ->
+  (forall w h b, ldims w h -> rgood (lossless w h b)) ->
   forall n, webp_sanitize lossless allow lenient ms inp fuel <> Panic n.
 Proof. exact webp_sanitize_no_panic. Qed.
 Print Assumptions C09_webp_container_no_panic.
@@ -21,7 +23,7 @@ Print Assumptions C09_webp_container_no_panic.
    bytes lying inside the input, so ilen/8 + 1 iterations of fuel always suffice *)
 Theorem C09_webp_container_terminates :
   forall (lossless : N -> N -> bytes -> res unit) (allow lenient : bool) (ms : N) (inp : input) (fuel : nat),
-  (forall w h b, rgood (lossless w h b)) -> (N.to_nat (ilen inp / 8) < fuel)%nat ->
+  (forall w h b, ldims w h -> rgood (lossless w h b)) -> (N.to_nat (ilen inp / 8) < fuel)%nat ->
   webp_sanitize lossless allow lenient ms inp fuel <> OutOfFuel.
 Proof. exact webp_sanitize_terminates. Qed.
 Print Assumptions C09_webp_container_terminates.
@@ -35,3 +37,24 @@ Theorem C09_webp_lossless_total :
   lossless_read w h body = Ok tt \/ exists e, lossless_read w h body = EParse e.
 Proof. exact model_total. Qed.
 Print Assumptions C09_webp_lossless_total.
+
+(* ... and for every dimension pair a container can pass, 0 < w, h <= 2^24, whatever the pixel count (an ANMF frame header
+   can declare 2^24 x 2^24 pixels; the code saturates the count at 2^32-1): Ok or a parse error *)
+Theorem C09_webp_lossless_total_wide :
+  forall (w h : N) (body : bytes), 0 < w <= 2 ^ 24 /\ 0 < h <= 2 ^ 24 ->
+  lossless_read w h body = Ok tt \/ exists e, lossless_read w h body = EParse e.
+Proof. exact model_total_wide. Qed.
+Print Assumptions C09_webp_lossless_total_wide.
+
+(* the whole modelled webpsan (container + lossless validator): no hypothesis left *)
+Theorem C09_webp_no_panic :
+  forall (allow lenient : bool) (ms : N) (inp : input) (fuel : nat) (n : N),
+  webp_sanitize lossless_read allow lenient ms inp fuel <> Panic n.
+Proof. exact webpsan_no_panic. Qed.
+Print Assumptions C09_webp_no_panic.
+
+Theorem C09_webp_terminates :
+  forall (allow lenient : bool) (ms : N) (inp : input) (fuel : nat),
+  (N.to_nat (ilen inp / 8) < fuel)%nat -> webp_sanitize lossless_read allow lenient ms inp fuel <> OutOfFuel.
+Proof. exact webpsan_terminates. Qed.
+Print Assumptions C09_webp_terminates.
